@@ -209,6 +209,20 @@ def compressor(prog, res):
                       {"maxFrameSize", "frameDSize"} <= {y["f"] for y in walk(x) if y.get("k") == "mem"}, "true")
     res.check(len(ef) == 1 and len(full) == 1 and c.must_pass(via_edges=full, targets=ef), R, "compressStream:frame-ends-at-max", c.loc,
               "a frame is ended exactly when frameDSize reaches maxFrameSize", "frame end no longer tied to maxFrameSize == frameDSize")
+    # accounting: bytes a zstd streaming call wrote / consumed are counted on EVERY exit (also the
+    # early "output full" returns), else the seek table's offsets drift
+    for fname, callee, field, note in (("ZSTD_seekable_endFrame", "ZSTD_endStream", "frameCSize", "bytes written while ending the frame"),
+                                       ("ZSTD_seekable_compressStream", "ZSTD_compressStream", "frameCSize", "bytes written"),
+                                       ("ZSTD_seekable_compressStream", "ZSTD_compressStream", "frameDSize", "bytes consumed")):
+        g2 = prog.fn(fname)
+        cr = g2.call_roots(callee)
+        acc = g2.find_roots(lambda x: x.get("k") == "asg" and x.get("op") == "+=" and strip_casts(x["lhs"]).get("f") == field
+                            and "pos" in {y["f"] for y in walk(x["rhs"]) if y.get("k") == "mem"})
+        ok = len(cr) == 1 and bool(acc) and g2.must_pass(via_roots=acc, starts=[(b, i + 1) for b, i in cr])
+        res.check(ok, R, "%s:%s-accounted-on-every-exit" % (fname, field), g2.loc,
+                  "%s are added to %s before any return that follows %s" % (note, field, callee),
+                  "%s can return after %s without adding %s to %s: the logged frame size (seek table offsets) would be wrong"
+                  % (fname, callee, note, field))
     # writer layout (T7): numFrames, descriptor byte (checksumFlag << 7), magic — 4 + 1 + 4 = footer 9
     w = prog.fn("ZSTD_seekable_writeSeekTable")
     calls = [cn for b, i, cn in w.calls("ZSTD_stwrite32")]
@@ -226,7 +240,7 @@ def compressor(prog, res):
     shr = [x for _, _, x in rd.events(lambda y: y.get("k") == "bin" and y.get("op") == ">>" and const_val(y["rhs"]) == 7)]
     res.check(bool(sh) and bool(shr), "T7.layout", "descriptor:checksum-bit", w.loc, "checksum flag is bit 7 on both sides",
               "writer (<<7) and reader (>>7) disagree on the checksum flag bit")
-    res.need(R, 7)
+    res.need(R, 10)
 
 
 def witnesses(prog, res):
